@@ -13,8 +13,9 @@ CHECKS = {
          "bounded-exhaustive enumeration of boundary-value field assignments against a range predicate",
          "Complete product over the dependent field cluster (version x NOPE x modulation x TSC set x TSC x C/I x burst "
          "length) and boundary sweeps / complete 8^4 products of the independent fields, for Tx and Rx, through "
-         "validate(), gen_msg() and DATAInterface.send_msg() of the tree; every off-by-one in any range comparison "
-         "flips at least one enumerated point.",
+         "validate(), gen_msg() and DATAInterface.send_msg() of the tree (each with and without the call site's legacy-padding flag); every "
+         "off-by-one in any range comparison flips at least one enumerated point; the same message object is re-assigned and re-encoded "
+         "across the boundary product.",
          "Integer/None field values only; reference predicate transcribed from the property statement; fake UDP socket.",
          "DESIGN.md 2/C13", "enum+world"),
  "C12": ("model_checking",
@@ -83,7 +84,8 @@ CHECKS = {
          "Every script of length L (5 quick / 6 thorough) over 6 handler durations (below, at and above one frame) x 2 wake-up latenesses is run on the "
          "real CLCKGen.start/_worker/send_clck_ind/stop; every handler invocation time, frame number and indication datagram is compared with a "
          "reference clock in integer nanoseconds; repeated over start frames {0,1,2715646,2715647} x periods {1,2,51,102} x 0..2 links and with "
-         "stop()/start() arriving before, during and at the end of a wait after every script prefix.",
+         "stop()/start() arriving before, during and at the end of a wait after every script prefix; plus two generator objects in one process "
+         "(one lives its whole life while the other waits).",
          "Virtual time; worker body run synchronously (Event.wait is its only blocking point); frame period taken from the implementation within 1 us.",
          "DESIGN.md 2/C09", "world"),
  "C14": ("fault_enumeration",
